@@ -9,7 +9,8 @@ From FT Require Import Model.Base Model.Obs Model.C09Transform Model.C09Check
                        Proofs.C09OrderP Proofs.C09FlattenP Proofs.C09BelowP Proofs.C09CheckP
                        Proofs.C09SwizzleP Proofs.C09WfP Proofs.C09RebuildP Proofs.C09SwapP Proofs.C09UnflP
                        Proofs.C09SplitP Proofs.C09LinearP Proofs.C09RefP Proofs.C09SpecP
-                       Proofs.C09DescentP Proofs.C09UnflWfP Proofs.C09SwapSpecP Proofs.C09ComposeP.
+                       Proofs.C09DescentP Proofs.C09UnflWfP Proofs.C09SwapSpecP Proofs.C09ComposeP
+                       Proofs.C09SwapSwapP Proofs.C09MergeP.
 Import ListNotations.
 Open Scope Z_scope.
 
@@ -258,11 +259,10 @@ Proof. exact content_ok_sound. Qed.
 Print Assumptions C09_oracle_sound.
 
 (* Full statement wanted:  forall c, c09_wf c = true -> holds c09_checker c (model c09_checker c) = true.
-   Proved (C09_model_meets_spec_proved_ops below): for OSwizzle, OSwizzleInv, OSwap, OFlatten (all
-   styles), OFlatUnflat and OSplitFlat at every depth and number of levels.
-   NOT proved: OMerge (the grouping of colliding keys and _mergeToFibertree's union recursion)
-   and OSwapSwap (needs the swap result to be shown inside swap's own domain, i.e. int
-   coordinates of the result).  For those two the statement below still applies: the oracle
+   Proved (C09_model_meets_spec_proved_ops below): for OSwizzle, OSwizzleInv, OSwap, OSwapSwap,
+   OFlatten (all styles), OFlatUnflat and OSplitFlat at every depth and number of levels.
+   NOT proved: OMerge (the grouping of colliding keys and _mergeToFibertree's union recursion).
+   For it the statement below still applies: the oracle
    evaluated on the model's encoded observation is the oracle evaluated on the model's result
    tree, so verdict bit 4 of every run tests exactly "the model's result satisfies the property". *)
 Theorem C09_model_meets_spec_partial : forall c,
@@ -327,12 +327,66 @@ Theorem C09_split_flatten_fiber : forall step fuel N sh d s, (1 <= N)%nat -> Wb 
 Proof. exact sf_fiber. Qed.
 Print Assumptions C09_split_flatten_fiber.
 
+(* Tensor.swapRanks(depth) maps its tensor-level domain [Dsw] (sorted, uniform depth n, the
+   fibers at the swapped level have one level of int-coordinate fibers below them and
+   well-formed payloads) into itself, exchanging coordinates depth and depth+1 of every point;
+   hence it can be applied again, and twice is the identity on contents *)
+Theorem C09_swap_post : forall n depth fuel d es, (depth + 2 <= n)%nat -> Dsw n depth es ->
+  exists r, t_swap depth fuel d es = Some r
+    /\ Permutation (ccontent d (CN r)) (map (on_pt (nunder depth swap0)) (ccontent d (CN es)))
+    /\ Dsw n depth r.
+Proof. exact t_swap_post. Qed.
+Print Assumptions C09_swap_post.
+
+(* ---- mergeRanks (absolute / relative) with the default merge_fn (sum), leaf default 0 ----
+   [sq l l']: the point/value lists l and l' are equal up to permutation, joining two entries of
+   the same point by + and dropping zero entries ("colliding points reduced with the merge
+   function").  It implies equal point sums, which is the quantity the oracle compares: *)
+Theorem C09_sq_sums : forall out img src, sq out (map (on_pt img) src) ->
+  forall q, fsum out q = sums_to img src q.
+Proof. exact sq_sums. Qed.
+Print Assumptions C09_sq_sums.
+
+(* the coords/payloads grouping loop of _mergeRanksHelper (bisect + append-or-insert), for ANY
+   sequence of keys: the groups hold exactly the items (each under its key), none is empty *)
+Theorem C09_merge_groups : forall items,
+  Permutation (ungroups (group_items items)) items
+  /\ Forall (fun g : coord * list ct => snd g <> []) (group_items items).
+Proof. intros. split; [apply group_items_perm|apply group_nonempty]. Qed.
+Print Assumptions C09_merge_groups.
+
+(* _mergeToFibertree with sum on any non-empty list of sorted payloads of uniform depth m (any
+   number of operands, any depth): it succeeds and the content of the result is the operands'
+   contents added up.  The union recursion: coordinates = ascending set union of the non-empty
+   elements' coordinates, an operand that does not offer a coordinate contributes a default
+   without content. *)
+Theorem C09_merge_to_fibertree : forall fuel m ps, (m < fuel)%nat -> ps <> [] -> unif m ps ->
+  exists t, merge_tf fuel 0 false ps = Some t /\ sq (ccontent 0 t) (flat_map (ccontent 0) ps).
+Proof. exact merge_tf_content. Qed.
+Print Assumptions C09_merge_to_fibertree.
+
+(* one level of mergeRanks (any style): the result's content is the content of the list of
+   (new coordinate, payload) items with colliding points added up *)
+Theorem C09_merge_level : forall style fuel shapes es m, (m < fuel)%nat -> all_fibers es = true ->
+  Forall (fun cp => Forall (fun cp0 : coord * ct => cdepth_ok m (snd cp0) = true /\ csorted (snd cp0) = true)
+                           (sub (snd cp))) es ->
+  exists r, merge_helper 1 style false fuel shapes 0 es = Some r
+    /\ sq (ccontent 0 (CN r))
+          (ccontent 0 (CN (merge_items style (prodZ (firstn 1 (tl shapes))) 0 es))).
+Proof. exact merge1_content. Qed.
+Print Assumptions C09_merge_level.
+(* Still missing for "the model meets the oracle on OMerge": levels > 1 (the recursion of
+   _mergeRanksHelper through already merged lower fibers), the Below descent up to [sq], that
+   the merged fiber is sorted and of uniform depth (ins_group keeps the keys ascending,
+   union_coords is ascending - the latter is proved inside C09_merge_to_fibertree), and the step
+   from equal point sums to content_ok (the result's points are distinct and carry no zero). *)
+
 (* the operations for which "the model satisfies the oracle" is proved for all well-formed
    cases: every operation, at every depth, number of levels and style, except mergeRanks
-   (absolute / relative) and the double swap *)
+   (absolute / relative) *)
 Definition proved_op (o : op) : bool :=
   match o with
-  | OMerge _ _ _ | OSwapSwap _ => false
+  | OMerge _ _ _ => false
   | _ => true
   end.
 
@@ -344,6 +398,7 @@ Proof.
   - eapply spec_swizzle; eauto.
   - eapply spec_swizzle_inv; eauto.
   - eapply spec_swap; eauto.
+  - eapply spec_swapswap; eauto.
   - destruct dp; [eapply spec_flatten_root|eapply spec_flatten_below]; eauto.
   - eapply spec_flatunflat; eauto.
   - eapply spec_splitflat; eauto.
